@@ -2992,6 +2992,7 @@ class TypeBlocks(ContainerOperand):
                             return sel[i, target_slice.start] # type: ignore
 
                         target_slice = None
+                        target_slice_edge = None
                         for target_slice, value in slices_from_targets(
                                 target_index=target_index,
                                 target_values=target_values,
@@ -3001,10 +3002,13 @@ class TypeBlocks(ContainerOperand):
                                 slice_condition=slice_condition
                                 ):
                             assigned[i, target_slice] = value
+                            # slices arrive left to right: the one nearest the bridging edge is the last going forward, the first going backward
+                            if directional_forward or target_slice_edge is None:
+                                target_slice_edge = target_slice
 
-                        # update counts from the last slice; this will have already been limited if necessary, but need to reflext contiguous values going into the next block; if slices does not go to edge; will identify as needing as reset
-                        if target_slice is not None:
-                            bridging_count[i] = len(range(*target_slice.indices(length))) # type: ignore
+                        # update counts from the slice nearest the bridging edge; this will have already been limited if necessary, but need to reflext contiguous values going into the next block; if slices does not go to edge; will identify as needing as reset
+                        if target_slice_edge is not None:
+                            bridging_count[i] = len(range(*target_slice_edge.indices(length))) # type: ignore
 
                     bridging_values = assigned[:, bridge_src_index]
                     bridging_isna = isna_array(bridging_values) # must reevaluate if assigned
